@@ -90,6 +90,11 @@ pub struct RNode {
     pub closure_ran: i32,
     pub rhs: Option<Key>,
     pub made: Vec<Key>,
+    /// the node a `ST` alternative created on its first use (returned, stale, ever after)
+    pub first_st: Option<Key>,
+    /// map_ref only: the node was outside every observer's cone at the end of some round since
+    /// it last ran (it cannot have compared projections for input changes in that period)
+    pub absent: bool,
     // var
     pub logical: Val,
     pub written: i32,
@@ -108,6 +113,8 @@ impl RNode {
             closure_ran: NEVER,
             rhs: None,
             made: vec![],
+            first_st: None,
+            absent: false,
             logical: Val::I(0),
             written: NEVER,
         }
@@ -163,6 +170,8 @@ pub struct RoundOut {
     pub notes: BTreeMap<u8, Upd>,
     /// subscriptions for which an `Invalidated` is optional this round
     pub optional_invalidated: BTreeSet<u8>,
+    /// map_ref nodes re-evaluated after a period outside the cone whose projection did not change
+    pub mapref_reobserved_unchanged: BTreeSet<Key>,
     pub live_observers: usize,
 }
 
@@ -453,13 +462,14 @@ impl Model {
                     odd: (**od).clone(),
                 },
             ),
-            Rhs::ST(x) => {
-                if gen == 1 {
-                    mk(self, 0, RKind::Map1(Fn1::Captured(captured.clone()), o(x)))
-                } else {
-                    Key::inner(b, 1, 0)
+            Rhs::ST(x) => match self.nodes[b].first_st.clone() {
+                None => {
+                    let k = mk(self, 0, RKind::Map1(Fn1::Captured(captured.clone()), o(x)));
+                    self.nodes.get_mut(b).unwrap().first_st = Some(k.clone());
+                    k
                 }
-            }
+                Some(k) => k,
+            },
         };
         (rhs, made)
     }
@@ -575,9 +585,21 @@ impl Model {
                 }
                 let n = &self.nodes[k];
                 let stale = n.ran == NEVER || ins.iter().any(|c| self.nodes[c].changed > n.ran);
+                let was_absent = n.absent;
+                if matches!(kind, RKind::MapRef(_)) {
+                    self.nodes.get_mut(k).unwrap().absent = false;
+                }
+                let n = &self.nodes[k];
                 if stale {
                     let args: Vec<Val> = ins.iter().map(|c| self.nodes[c].val.clone().unwrap()).collect();
                     let (new, flag) = Self::apply_kind(&kind, &args, n.val.as_ref());
+                    if was_absent && matches!(kind, RKind::MapRef(_)) {
+                        if let Some(old) = &n.val {
+                            if n.cut.suppresses(old, &new) {
+                                out.mapref_reobserved_unchanged.insert(k.clone());
+                            }
+                        }
+                    }
                     if kind.logged() {
                         let mut logged_args = args.clone();
                         if let RKind::MapWithOld(_) = kind {
@@ -634,6 +656,11 @@ impl Model {
             self.eval(r, &mut out);
         }
         out.cone_end = self.reach(&roots);
+        for (k, n) in self.nodes.iter_mut() {
+            if matches!(n.kind, RKind::MapRef(_)) && !out.cone_end.contains(k) {
+                n.absent = true;
+            }
+        }
         // expected notifications
         let now = self.now;
         for (i, s) in self.subs.iter_mut().enumerate() {
@@ -726,6 +753,32 @@ impl Model {
         self.now = save_now;
     }
 
+    /// A run the reference did not expect but which a listed known finding explains: follow the
+    /// implementation so that later rounds are judged from the state the engine is really in.
+    pub fn adopt_extra_run(&mut self, round: i32, key: &Key, args: &[Val]) {
+        let save = self.now;
+        self.now = round;
+        let mut scratch = RoundOut::default();
+        if let Some(n) = self.nodes.get(key) {
+            let kind = n.kind.clone();
+            let real_args: Vec<Val> = match kind {
+                RKind::MapWithOld(_) => vec![args.last().cloned().unwrap_or_default()],
+                _ => args.to_vec(),
+            };
+            if n.valid && real_args.len() == kind.inputs().len() && !matches!(kind, RKind::Bind { .. } | RKind::Var | RKind::Const(_) | RKind::Dead) {
+                let (new, flag) = Self::apply_kind(&kind, &real_args, n.val.as_ref());
+                self.run(key, new, flag, &mut scratch);
+            }
+        }
+        self.now = save;
+    }
+    /// the conservative choice of the engine for a re-observed map_ref: it counts as changed
+    pub fn adopt_mapref_changed(&mut self, round: i32, key: &Key) {
+        if let Some(n) = self.nodes.get_mut(key) {
+            n.changed = round;
+        }
+    }
+
     /// key with generations made relative to the creating bind's current generation
     pub fn kfmt(&self, k: &Key) -> String {
         match k {
@@ -753,18 +806,19 @@ impl Model {
             }
             let _ = write!(
                 s,
-                "{} {} v={:?} ran=@{} chg=@{} valid={} gen={} cr=@{} rhs={} lg={:?} wr=@{}\n",
+                "{} {} v={:?} ran=@{} chg=@{} valid={} gen={} cr=@{} rhs={} lg={:?} wr=@{} abs={}\n",
                 self.kfmt(k),
                 n.kind.name(),
                 n.val,
                 n.ran,
                 n.changed,
                 n.valid as u8,
-                n.gen.min(2),
+                if n.first_st.is_some() { 3 } else { n.gen.min(2) },
                 n.closure_ran,
                 n.rhs.as_ref().map_or("-".to_string(), |r| self.kfmt(r)),
                 if matches!(n.kind, RKind::Var) { Some(&n.logical) } else { None },
-                n.written
+                n.written,
+                n.absent as u8
             );
         }
         for (i, o) in self.obs.iter().enumerate() {
